@@ -24,7 +24,7 @@ def parse(o):
         for kv in w[1:]:
             k, _, v = kv.partition("=")
             d[k] = v
-        for k in ("rc", "app", "draws", "sent", "after", "cap", "ivs", "ivdup", "sendfail"):
+        for k in ("rc", "app", "draws", "sent", "after", "cap", "ivs", "ivdup", "sendfail", "hsdraws", "apperr", "shut"):
             d[k] = int(d.get(k, "0"))
         res[w[0]] = d
     return res if "client" in res and "server" in res else None
@@ -52,15 +52,15 @@ def c18_handshakes(ctx, failing, witnessed):
         ctx.violation("hs:harness-build", "handshake harness does not build against the current tree: " + log[-500:], {"kind": "correspondence", "log": log[-3000:]}, False)
         return
     t0 = time.time()
-    modes = [(p, a) for p in PROTOS for a in ("", " auth")]          # without and with client authentication
+    modes = [(p, a) for p in PROTOS for a in (" shut", " auth shut")]   # without / with client authentication; data both ways, then close_notify
     seeds = {m: 256 * (1 + ctx.rng.below(4000)) + ctx.rng.below(200) for m in modes}
     base, _ = core.run_lines(exe, ["hs %s %d -1 -1%s" % (m[0], seeds[m], m[1]) for m in modes], shards=4)
     cases = []
     for m, o in zip(modes, base):
-        p = m[0] + ("+clientauth" if m[1] else "")
+        p = m[0] + ("+clientauth" if "auth" in m[1] else "")
         ctx.cov["evaluations"] += 1
         r = parse(o)
-        if not r or any(r[x]["rc"] != 1 or r[x]["app"] != 1 for x in ("client", "server")):
+        if not r or any(r[x]["rc"] != 1 or r[x]["app"] != 1 or r[x]["shut"] != 1 for x in ("client", "server")):
             ctx.violation("hs:healthy:" + p, "handshake does not complete on healthy entropy streams: `hs %s %d -1 -1%s` -> %s" % (m[0], seeds[m], m[1], o[:300]),
                           {"kind": "failing-input", "op": "hs %s %d -1 -1%s" % (m[0], seeds[m], m[1]), "impl": o, "expected": "rc=1 app=1 on both roles", "variant": "asan"}, True)
             continue
@@ -75,11 +75,11 @@ def c18_handshakes(ctx, failing, witnessed):
         r = parse(o)
         if not r or any(r[x]["rc"] != 1 for x in ("client", "server")):
             continue
-        if m[1] and m[0] != "tls13" and ctx.tier != "thorough":
+        if "auth" in m[1] and m[0] != "tls13" and ctx.tier != "thorough":
             continue
-        p = m[0] + ("+clientauth" if m[1] else "")
+        p = m[0] + ("+clientauth" if "auth" in m[1] else "")
         for role in ("client", "server"):
-            d = r[role]["draws"]
+            d = r[role]["hsdraws"]
             idx = sorted({0, d - 1}) if ctx.tier != "thorough" else sorted({0, 1, d // 2, d - 1})
             for i in idx:
                 for k in ((1, 8, 16) if ctx.tier != "thorough" else (1, 2, 7, 8, 9, 16)):
@@ -87,7 +87,7 @@ def c18_handshakes(ctx, failing, witnessed):
                         ecases.append((p, role, i, k, en, r[role]["sentdg"],
                                        "hs %s %d %s%s k=%d:%s" % (m[0], seeds[m], ("%d -1" % i) if role == "client" else ("-1 %d" % i), m[1], k, en)))
         if m[0] != "tls13":
-            acases.append((p, "hs %s %d -1 -1%s app=9" % (m[0], seeds[m], m[1])))
+            acases.append((p, "hs %s %d -1 -1%s app=9" % (m[0], seeds[m], m[1].replace(" shut", ""))))
     eouts, _ = core.run_lines(exe, [c[6] for c in ecases] + [c[1] for c in acases], shards=4)
     for (p, role, i, k, en, dg, line), o in zip(ecases, eouts):
         ctx.cov["evaluations"] += 1
@@ -131,6 +131,14 @@ def c18_handshakes(ctx, failing, witnessed):
                           {"kind": "failing-input", "op": line, "impl": o, "expected": "HS ...", "variant": "asan", "stderr": err[-1500:]}, True)
             continue
         me = r[role]
+        if i >= me["hsdraws"] and me["rc"] == 1:
+            # the failing draw belongs to the application phase (tls_send / tls_shutdown): that call must report it
+            if me["apperr"] >= 1:
+                ctx.cell("hs:%s:%s:app-phase:ERR" % (p, role))
+            else:
+                ctx.violation("failopen:hs:%s:%s:app" % (p, role), "%s: entropy draw %d (application phase: tls_send / tls_shutdown) failed and no call reported it: `%s` -> %s" % (
+                    role, i, line, o[:260]), {"kind": "failing-input", "op": line, "impl": o, "expected": "tls_send or tls_shutdown returns failure", "variant": "asan"}, True)
+            continue
         frames = symbolise(exe, me.get("bt", "-"))
         sites = [unchecked[(fn, ln)] for (fn, f, ln) in frames if (fn, ln) in unchecked]
         # also accept a one-line offset (return address - 1 may fall on the previous source line of a wrapped call)
